@@ -308,7 +308,7 @@ def check_sweep(P, ctx):
     aspects = (('GC_Sweep:guard', 'exactly the entries that are occupied, unmarked and not roots are reclaimed; roots and marked pointers stay registered with their flags, marks cleared'),
                ('GC_Sweep:rescan-after-removal', 'after an entry is reclaimed and the cluster behind it shifted back, the entry that moved into its slot is examined too: every pointer stays findable and none is skipped'),
                ('GC_Sweep:append', 'every reclaimed pointer is put on the pending list once and the count is decremented once per reclaimed pointer'),
-               ('GC_Sweep:finalise-pending', 'every pending pointer is finalised once (dealloc(destruct(p))), nothing else is, and the list is released afterwards with its length reset'),
+               ('GC_Sweep:finalise-pending', 'every pending pointer is finalised once (dealloc(destruct(p))), nothing else is'),
                ('GC_Sweep:pending-capacity', 'the pending list has room for every pointer put on it'))
     which = None
     if bad:
